@@ -34,6 +34,7 @@ fn main() {
         let kind = v["kind"].as_str().unwrap_or("").to_string();
         let still = match kind.as_str() {
             "uni-trace" => props::uni::replay(&v["case"]),
+            "extcurve-far" => props::uni::replay_far(&v["case"]),
             "exec-trace" => props::ros::replay(&v["case"]),
             "uni-case" => props::c06::replay(&v["case"]),
             "ros-case" => props::c07::replay(&v["case"]),
